@@ -314,13 +314,24 @@ func NewWriter(w io.Writer, v Version, opt *WriterOptions) (*Writer, error) {
 
 // Close closes the Writer, flushing any unwritten data to the underlying
 // io.Writer.
-func (w *Writer) Close() error {
+func (w *Writer) Close() (err error) {
 	if w.closed {
 		return errWriterClosed
 	}
 	if w.inStream {
 		return errors.New("Close() while stream is open")
 	}
+
+	// Close allocates references for the catalog, the info dictionary and
+	// the cross-reference stream, some of these via the public Alloc method.
+	// If no object numbers are left, this is reported as an error here.
+	defer func() {
+		if r := recover(); r == errAllocOverflow {
+			err = errAllocOverflow
+		} else if r != nil {
+			panic(r)
+		}
+	}()
 
 	trailer := w.meta.Trailer.Clone()
 
@@ -421,7 +432,7 @@ func (w *Writer) GetOptions() OutputOptions {
 // reached, since the writer cannot mint a valid further reference.
 func (w *Writer) Alloc() Reference {
 	if w.nextRef >= maxXRefSize {
-		panic("pdf.Writer: object-number overflow")
+		panic(errAllocOverflow)
 	}
 	res := NewReference(w.nextRef, 0)
 	w.nextRef++
@@ -691,6 +702,10 @@ func (w *Writer) WriteCompressed(refs []Reference, objects ...Object) error {
 }
 
 var errWriterClosed = errors.New("pdf.Writer is closed")
+
+// errAllocOverflow is the panic value of [Writer.Alloc].  [Writer.Close]
+// returns it as an error.
+var errAllocOverflow = errors.New("pdf.Writer: object-number overflow")
 
 // maxObjStmMembers is the largest number of objects an object stream may
 // hold (see getObjStm).
